@@ -24,6 +24,9 @@ class Point(Domain):
 
     def __call__(self, **data):
         new_point = self.point.partially_evaluate(**data)
+        if isinstance(new_point, torch.Tensor) and len(new_point.shape) > 1:
+            # evaluated functions return a batch of one point
+            new_point = new_point[0, :]
         return Point(space=self.space, point=new_point)
 
     def _contains(self, points, params=Points.empty()):
